@@ -11,6 +11,7 @@ type OptSpec struct {
 	Tag     string `json:"tag,omitempty"`     // "" (default bexpr) or a tag name
 	Unknown string `json:"unknown,omitempty"` // "", "str:<s>", "int:<n>", "nil"
 	Hook    string `json:"hook,omitempty"`    // "", identity, unwrap, poison
+	Max     uint64 `json:"max,omitempty"`     // WithMaxExpressions (0: not passed)
 }
 
 // ObjSpec names a long-lived object under test.
